@@ -122,8 +122,10 @@ OfbApplySt(c, st, data, bs) ==
 (* byte position, as a BigNat *)
 PosOf(st, bs) == NAddInt(NMulInt(st.blk, bs), st.off)
 (* keystream length: Base^fl - 1 blocks (BelT: the counter is one whole block wide) *)
-MaxBlocks(kind) == NAllOnes(IF kind = "belt" THEN 16 ELSE FieldLen(kind))
-EndPos(kind, bs) == NMulInt(MaxBlocks(kind), bs)
+(* BelT's counter is as wide as its block (16 bytes; bs digits in the scaled-down models) *)
+CounterDigits(kind, bs) == IF kind = "belt" THEN bs ELSE FieldLen(kind)
+MaxBlocks(kind, bs) == NAllOnes(CounterDigits(kind, bs))
+EndPos(kind, bs) == NMulInt(MaxBlocks(kind, bs), bs)
 (* blocks generated so far, as the counter sees them *)
 CtrOf(st) == IF st.off = 0 THEN st.blk ELSE NAddInt(st.blk, 1)
 (* position -> state *)
@@ -136,6 +138,9 @@ FitsType(v, t) ==
     [] t = "u64"   -> NFits(v, 8)
     [] t = "usize" -> NFits(v, 8)
     [] t = "u128"  -> NFits(v, 16)
+    [] t = "d2"    -> NFits(v, 2)     \* scaled-down integer types of the model-checking configurations
+    [] t = "d3"    -> NFits(v, 3)
+    [] t = "d5"    -> NFits(v, 5)
 
 --------------------------------------------------------------------------
 (* initial state of the machine for an object constructed from iv *)
